@@ -328,7 +328,7 @@ func c02FieldTargets(c *Ctx, r *Report) {
 			extra := extraControllersBy(c, fn, ci.Block(), true, leaf)
 			r.check(extra == "", "C02-R4-field-targets", fmt.Sprintf("parseDataFields/decoded-iff-listed#%d", nDec), c.pos(ci.Pos()), "decoded for every listed field of a known message (controlled by known / found / the row's kind only)", "whether a present, listed field is decoded also depends on "+extra+": fields for which that fails keep their invalid value although the record carries them")
 		}
-		r.need("field-decoding calls in parseDataFields", nDec, 4)
+		r.need("field-decoding calls in parseDataFields", nDec, 3) // the three parsers; the coordinate Sets may sit in a helper
 	}
 }
 
